@@ -86,6 +86,7 @@ func Reset() {
 	Facts = map[string]string{}
 	clockStarted, clockNS, SleepCount, MaxSleeps = false, 0, 0, 0
 	SinceNS = nil
+	OnSleep = nil
 	ConcreteClockStep = 0
 	ClockAbs, ClockFrozen, clockFrozen = false, false, false
 	clockFrozen = false
@@ -402,7 +403,18 @@ func Since(t time.Time) time.Duration {
 var (
 	MaxSleeps  int
 	SleepCount int
+	// OnSleep, when set, is called from every Sleep after the clock has advanced (time passes
+	// here: the harness may let other processes act). Not re-entered.
+	OnSleep func()
 )
+
+func onSleep() {
+	if f := OnSleep; f != nil {
+		OnSleep = nil
+		f()
+		OnSleep = f
+	}
+}
 
 // Sleep advances the clock by at least d.
 func Sleep(d time.Duration) {
@@ -416,10 +428,12 @@ func Sleep(d time.Duration) {
 			clockNS += clockStep
 		}
 		Event("sleep")
+		onSleep()
 		return
 	}
 	if clockFrozen {
 		Event("sleep")
+		onSleep()
 		return
 	}
 	extra := Int64("clock.sleep.extra")
@@ -433,6 +447,7 @@ func Sleep(d time.Duration) {
 		clockNS += clockStep
 	}
 	Event("sleep")
+	onSleep()
 }
 
 // ---------------------------------------------------------------------------
